@@ -230,6 +230,49 @@ Proof.
   rewrite Hq, app_nil_r in Hd. cbn [snd]. rewrite Hout, <- Hd, Hadd. reflexivity.
 Qed.
 
+(* ------------------------------------------------------------------ source exclusion *)
+
+Lemma parse_excluded rc fs : forall fuel k,
+  Forall wire_ok fs -> Forall (fun f => sex_ok rc (f_sex f) = false) fs ->
+  parse fuel rc (takeN k (enc_frags fs)) = [].
+Proof.
+  intros fuel k HW HS. destruct fs as [|f fs].
+  - unfold takeN. cbn [enc_frags map concat]. rewrite firstn_nil. apply parse_nil.
+  - inversion HW as [|? ? Hf _]; subst. inversion HS as [|? ? Sf _]; subst.
+    rewrite enc_frags_cons.
+    destruct (N.le_gt_cases (lenN (enc_frag f)) k) as [Hk|Hk].
+    + rewrite takeN_app_ge by exact Hk. destruct fuel as [|fuel]; [reflexivity|].
+      rewrite parse_step by exact Hf. rewrite Sf, andb_false_r. reflexivity.
+    + rewrite takeN_app_le by lia. rewrite lenN_enc_frag in Hk.
+      destruct (N.lt_ge_cases k FHS) as [Hk2|Hk2].
+      * apply parse_short. rewrite lenN_takeN. lia.
+      * rewrite enc_frag_hdr. rewrite takeN_app_ge by (rewrite lenN_hdr_of; exact Hk2).
+        apply parse_cut; [exact Hf|]. rewrite lenN_takeN, lenN_hdr_of. lia.
+Qed.
+
+(* SetSourceExclusionID: a receiver ignores every packet of a sender that carries its own non-zero id --
+   nothing is delivered and no receive state is created or touched *)
+Theorem tunnel_self_exclusion :
+  forall rc s t a p,
+    rc_misc rc = false -> sr_ok s ->
+    rc_sex rc <> 0 -> sc_sex (sr_cfg s) = rc_sex rc ->
+    In p (sr_packets s) ->
+    recv_packet rc t a p = (t, []).
+Proof.
+  intros rc s t a p Hmisc Hok Hnz Hsame Hin.
+  destruct (sent_packets_spec s Hok) as (fss & pend & Epk & _ & Hw & _ & Hst).
+  cbv zeta in Hst. destruct Hst as [_ Hch].
+  rewrite Epk in Hin. apply in_map_iff in Hin as (fs & <- & Hfs).
+  pose proof (chain_compat _ _ _ _ _ _ _ _ Hch) as Hcp. apply Forall_app in Hcp as [Hcp _].
+  apply Forall_concat_inv in Hcp. rewrite Forall_forall in Hw, Hcp.
+  assert (Hex : Forall (fun f => sex_ok rc (f_sex f) = false) fs).
+  { eapply Forall_impl; [|exact (Hcp fs Hfs)]. intros f [_ E]. unfold sex_ok. rewrite E, Hsame, N.eqb_refl.
+    destruct (N.eqb_spec (rc_sex rc) 0); [contradiction|reflexivity]. }
+  unfold recv_packet. rewrite Hmisc. cbn [andb].
+  destruct (lenN (takeN (rc_mtu rc) (enc_frags fs)) =? 0); [reflexivity|].
+  rewrite (parse_excluded rc fs _ _ (Hw fs Hfs) Hex). reflexivity.
+Qed.
+
 (* ------------------------------------------------------------------ the edge of the guarantee *)
 
 (* Message ids wrap at 2^32 by design.  Two same-length Messages whose ids coincide (2^32 apart in the
@@ -280,3 +323,10 @@ Example ex_run_nontrivial :
   /\ s_pkt (fst (srun ex_cfg (s_init 4294967295) ex_ops)) = []
   /\ s_q (fst (srun ex_cfg (s_init 4294967295) ex_ops)) = [].
 Proof. vm_compute. repeat split; reflexivity. Qed.
+
+(* non-vacuity of tunnel_self_exclusion: the same run seen by a receiver whose own id is 7 *)
+Definition ex_rc7 : rcfg := mkRCfg c_DEFAULT_TUNNEL_IOGATEWAY_MAGIC 7 (clamp_mtu 30) 20 false.
+Example ex_self_exclusion :
+  rc_misc ex_rc7 = false /\ rc_sex ex_rc7 <> 0 /\ sc_sex (sr_cfg ex_run) = rc_sex ex_rc7
+  /\ sr_packets ex_run <> [] /\ snd (recv_all ex_rc7 [] (map (pair 5) (sr_packets ex_run))) = [].
+Proof. vm_compute. repeat split; discriminate. Qed.
